@@ -29,6 +29,7 @@ type ObRecord struct {
 	KnownProp string `json:"known_property,omitempty"`
 	Cover   bool    `json:"cover,omitempty"`
 	Replay  string  `json:"replay,omitempty"`
+	Decisive bool   `json:"decisive,omitempty"` // a refutation by this back end counts even without a model (sound may-analysis)
 	ReplayOutcome string `json:"replay_outcome,omitempty"`
 }
 
@@ -102,6 +103,7 @@ func cmdCheck(args []string) int {
 		}
 	}
 	start := time.Now()
+	os.RemoveAll(filepath.Join(verifDir(), "replays", *prop))
 	ld, cs, err := loadAll()
 	if err != nil {
 		fmt.Fprintln(os.Stderr, "gv: load error:", err)
@@ -135,6 +137,7 @@ func cmdCheck(args []string) int {
 		total.Notes = append(total.Notes, j.Notes...)
 	}
 	merge(ctx.runSymbolic())
+	merge(ctx.runFrames())
 	for _, extra := range extraJobs[*prop] {
 		merge(extra(ctx))
 	}
@@ -330,7 +333,7 @@ func (ctx *checkCtx) report(total *JobResult, update, verbose bool, start time.T
 			switch {
 			case r.Status == "refuted" && r.ReplayOutcome == "reproduced":
 				violations = append(violations, fmt.Sprintf("VIOLATION property=%s replay=%s", ctx.prop, r.Replay))
-			case wasProved:
+			case wasProved || (r.Decisive && r.Status == "refuted"):
 				path := r.Replay
 				if path == "" {
 					path = writeReplayNote(replayDir, r)
